@@ -15,6 +15,7 @@ STATIC_LENS = (3, 32, 1, 5, 17, 2)
 OPS = ("update", "available", "any", "pipe", "fifo", "tx_full", "irq", "read", "clear", "flush_rx", "flush_tx",
        "last_tx_arc", "interrupt_config")
 CONFIG_WRITERS = ("listen_flip", "listen_same", "crc", "power_cycle", "reenter")
+BLOCK_OPS = ("foreign_block",)
 
 
 def decode_status(ctx, nrf, st, what):
@@ -94,7 +95,7 @@ def h_history(ctx, ops, role, driver="full", light=False):
         ctx.check(radio.irq_line_active() == (en != 0), what + ": the IRQ line asserts for exactly the enabled events")
 
     for step, op in enumerate(ops):
-        if op in CONFIG_WRITERS:
+        if op in CONFIG_WRITERS or op in BLOCK_OPS:
             # calls that rewrite CONFIG from the driver's shadow: the mask interrupt_config() established must survive them
             if op == "listen_flip":
                 nrf.listen = not nrf.listen
@@ -108,6 +109,27 @@ def h_history(ctx, ops, role, driver="full", light=False):
             elif op == "reenter":
                 nrf.__exit__(None, None, None)
                 nrf.__enter__()
+            elif op == "foreign_block":
+                # another driver object uses the shared radio in a block of its own (other widths, pipes closed); back in this
+                # object's block the pipes are opened again: the widths any()/read() rely on must be the radio's
+                from circuitpython_nrf24l01.rf24 import RF24
+                widths0, modes0 = [radio.reg[0x11 + p] for p in range(6)], radio.reg[0x1C]
+                nrf.close_rx_pipe(3)  # (two of this object's pipes are closed when it leaves, and opened again afterwards)
+                nrf.close_rx_pipe(5)
+                nrf.__exit__(None, None, None)
+                other = RF24(FakeSpiDev(radio), 0, Pin(radio))
+                with other:
+                    other.dynamic_payloads = False
+                    other.payload_length = 9
+                    for p in range(6):
+                        other.close_rx_pipe(p)
+                nrf.__enter__()
+                for p in range(6):
+                    nrf.open_rx_pipe(p, bytes([0x40 + p, 9, 8, 7, 6]))
+                nrf.listen = (role == "rx")
+                for p in range(6):
+                    ctx.check(radio.reg[0x11 + p] == widths0[p], "foreign_block: pipe %d has the static width this object established (any()/read() rely on it)" % p)
+                ctx.check(radio.reg[0x1C] == modes0, "foreign_block: the per-pipe length modes are the ones this object established")
             irq_mask_kept("%s#%d" % (op, step))
             continue
         rx0, tx0, irq0, cfg0 = [(p, list(d)) for p, d in radio.rx_fifo], [list(e) for e in radio.tx_fifo], radio.irq, radio.reg[0]
@@ -198,10 +220,13 @@ def jobs(tier):
         seqs += [("read", "read", b) for b in OPS] + [("read", "flush_rx", b) for b in OPS] + [("clear", "read", b) for b in OPS]
     seqs += [("interrupt_config", w) for w in CONFIG_WRITERS] + [("interrupt_config", "listen_flip", "interrupt_config"),
                                                                  ("interrupt_config", "reenter", "listen_flip")]
+    seqs += [("foreign_block",), ("foreign_block", "any"), ("foreign_block", "read")]
     if tier != "quick":
         seqs += [("interrupt_config", w, v) for w in CONFIG_WRITERS for v in CONFIG_WRITERS + ("update", "read", "clear")]
     for s in sorted(set(seqs)):
         for role in ("rx", "tx"):
+            if "foreign_block" in s and role == "tx":
+                continue
             light = any(o in CONFIG_WRITERS for o in s)  # the IRQ mask does not depend on how full the FIFOs are
             out.append(Job("accessor-history", h_history, dict(ops=list(s), role=role, **({"light": True} if light else {})), cost=len(s)))
     return out
